@@ -678,6 +678,16 @@ async fn run_scenario(sc: &Value, dir: &str, rec: &Rec) -> String {
                     })
                     .collect();
                 let k = resolved.len().max(1);
+                if op.get("forget").and_then(|x| x.as_bool()).unwrap_or(false) {
+                    // no instance of the processes is in memory when the calls are released: every one of them has
+                    // to load its process, all at the same moment
+                    let mut pids: Vec<&String> = resolved.iter().map(|r| &r.0).collect();
+                    pids.sort();
+                    pids.dedup();
+                    for pid in pids {
+                        rig.engine.verif_uncache(pid);
+                    }
+                }
                 let bar = Arc::new(Barrier::new(k));
                 let h = tokio::runtime::Handle::current();
                 sh.busy.fetch_add(1, Ordering::SeqCst);
